@@ -292,7 +292,9 @@ def judge(r):
         else:
             st["resumed_channels"] += 1
             # (a second crash on the same manager bytes may find the channel stale by then: the monitors moved on)
-            if chan in outdated and not (r.get("recrash_mode") == 2 and a and a["open"]):
+            # and a channel the live node had force-closed between the snapshot and the crash is compared by commitment
+            # numbers too (the close renumbers the dropped blocked updates): closing it again is harmless
+            if chan in outdated and not (r.get("recrash_mode") == 2 and a and a["open"]) and disk.get("open_at_crash", True):
                 bad("stale", "chan %s: manager at update %d is not older than its monitor at %d but the channel was closed as OutdatedChannelManager" % (chan, s["mgr_latest"], s["mon"]))
             want = max([s["mon"]] + [i for i in s["mgr_inflight"]])
             st["replayed_updates"] += len([i for i in s["mgr_inflight"] if i > s["mon"]])
